@@ -71,7 +71,7 @@ pub struct CanonicalFormatter {
 /// ```
 #[derive(Debug, Default)]
 struct Object {
-    obj: BTreeMap<Vec<u8>, Vec<u8>>,
+    obj: BTreeMap<Vec<u8>, (Vec<u8>, Vec<u8>)>,
     next_key: Vec<u8>,
     next_value: Vec<u8>,
     key_done: bool,
@@ -111,6 +111,27 @@ impl CanonicalFormatter {
             )
         })
     }
+}
+
+/// Recovers the (normalized) key from its serialized form by removing the surrounding quotes and
+/// undoing the two escapes that canonical JSON uses.
+fn unescape_key(serialized: &[u8]) -> Vec<u8> {
+    let inner = match serialized {
+        [b'"', inner @ .., b'"'] => inner,
+        other => other,
+    };
+    let mut key = Vec::with_capacity(inner.len());
+    let mut bytes = inner.iter();
+    while let Some(&byte) = bytes.next() {
+        if byte == b'\\' {
+            if let Some(&escaped) = bytes.next() {
+                key.push(escaped);
+            }
+        } else {
+            key.push(byte);
+        }
+    }
+    key
 }
 
 /// Wraps `serde_json::CompactFormatter` to use the appropriate writer (see
@@ -238,7 +259,7 @@ impl Formatter for CanonicalFormatter {
         let mut writer = self.writer(writer);
         let mut first = true;
 
-        for (key, value) in object.obj {
+        for (key, value) in object.obj.into_values() {
             CompactFormatter.begin_object_key(&mut writer, first)?;
             writer.write_all(&key)?;
             CompactFormatter.end_object_key(&mut writer)?;
@@ -273,7 +294,8 @@ impl Formatter for CanonicalFormatter {
         let object = self.obj_mut()?;
         let key = std::mem::take(&mut object.next_key);
         let value = std::mem::take(&mut object.next_value);
-        object.obj.insert(key, value);
+        // Members are ordered by their keys, not by the escaped form of their keys.
+        object.obj.insert(unescape_key(&key), (key, value));
         Ok(())
     }
 
